@@ -124,6 +124,10 @@ def run(ctx):
     ctx.guarded("R-C04-flag-bits", flag_bits, ctx)
     for name, (crate, pre) in FLAG_COPY_PREFIX.items():
         ctx.guarded("R-C04-len-strings", len_strings, ctx, ctx.progs[crate], name, pre)
+    nz = 0
+    for name, (crate, pre) in FLAG_COPY_PREFIX.items():
+        nz += ctx.guarded("R-C04-zero-length", zero_length_dispatch, ctx, ctx.progs[crate], name, pre, COPIES[name][2]) or 0
+    ctx.floor("R-C04-zero-length", "packet readers with a remaining_len == 0 branch (all codecs)", nz, 1)
     for name in ("rumqttd-v5", "rumqttc-v5"):
         crate, pre, entry, ptype = COPIES[name]
         ctx.guarded("R-C04-prop-accounting", prop_accounting, ctx, ctx.progs[crate], name, pre)
@@ -617,6 +621,16 @@ def prop_accounting(ctx, prog, name, pre):
                     continue      # only `counter += <sum>` on a named local, not the partial sums
                 leaves = flatten_src(provenance(rb, st["rv"]["b"]))
                 lens = [x for x in leaves if x.kind == "call" and re.search(r"(String|Bytes)::len$", x.path)]
+                varints = [x for x in leaves if x.kind == "call" and x.path.endswith("ops::Try>::branch") and
+                           any(y.kind == "call" and re.search(r"::length(_in_frame)?$", y.path) for y in flatten_src(provenance(rb, x.term["args"][0])))]
+                if varints and not lens:
+                    # a variable-byte-integer value (subscription identifier): its own width, nothing else — the
+                    # identifier byte was counted when it was read
+                    incs += 1
+                    extra = [x for x in leaves if x not in varints]
+                    if extra:
+                        problems.append((st, "a variable-byte-integer property adds %s besides the width of the integer (the property identifier byte is already counted): the reader stops before the end of the property section" % [getattr(x, "v", x.kind) for x in extra]))
+                    continue
                 if not lens:
                     continue
                 twos = [x for x in leaves if x.kind == "const" and x.v == 2]
@@ -863,3 +877,44 @@ def props_none_byte(ctx, prog, name, pre):
                           "%s: write() emits a one-byte property length of 0 when there are no properties, but len() counts %d fixed byte(s) on the None branch and %d on the Some branch (expected one more on None): the announced remaining length is one short, the frame cannot be decoded and the stream is left out of step"
                           % (label, cn, cs), site=lb.fn_loc())
     ctx.floor(rule, "packet len() functions with a properties branch and an explicit zero-length write in %s" % name, n, 6)
+
+
+# ------------------------------------------------------------------------------------------
+# R-C04-zero-length: packets that are valid with remaining length 0
+
+def zero_length_dispatch(ctx, prog, name, pre, entry):
+    """A packet reader that accepts `remaining_len == 0` (MQTT 5 DISCONNECT: reason code and properties omitted)
+    must be reachable for such a frame: the dispatcher's "no payload" shortcut has to route that packet type to
+    it (or build the packet) instead of answering PayloadRequired — the codec's own writer produces that frame."""
+    rule = "R-C04-zero-length"
+    disp = prog.one(entry)
+    # the `remaining_len == 0` test of the dispatcher and the packet-type match on its true edge
+    zero_sw = None
+    for sbb, holds, fails, _ in cmp_switches(disp, ("Eq",), lambda ss: any(getattr(x, "fields", None) and x.fields[-1] == "remaining_len" for x in ss), lambda ss: any(x.kind == "const" and x.v == 0 for x in ss)):
+        zero_sw = (sbb, holds)
+    accepted = set()
+    if zero_sw is not None:
+        region = reachable(disp, (zero_sw[1],))
+        for s_ in discr_switches(disp, r"PacketType$"):
+            if s_[0] in region and dominates(disp, zero_sw[1], s_[0]):
+                accepted |= set(s_[2].keys())
+    n = 0
+    for rb in sorted(prog.A.values(), key=lambda b: b.id):
+        if not rb.id.startswith(pre) or not rb.id.endswith("::read") or rb.kind not in ("Fn", "AssocFn"):
+            continue
+        if rb.id == disp.id:
+            continue
+        zero = cmp_switches(rb, ("Eq",), lambda ss: any(getattr(x, "fields", None) and x.fields[-1] == "remaining_len" for x in ss), lambda ss: any(x.kind == "const" and x.v == 0 for x in ss))
+        if not zero:
+            continue
+        n += 1
+        mod = rb.id[len(pre):].split("::")[0]
+        if zero_sw is None:
+            ctx.ok(rule, rb.id, "%s: the dispatcher has no zero-length shortcut; %s::read sees every frame" % (name, mod), site=rb.fn_loc())
+        elif any(v.lower() == mod.lower() for v in accepted):
+            ctx.ok(rule, rb.id, "%s: a %s frame with remaining length 0 is accepted by the dispatcher's shortcut" % (name, mod), site=rb.fn_loc())
+        else:
+            ctx.violation(rule, rb.id, "valid zero-length frame rejected",
+                          "%s: %s::read accepts remaining_len == 0, and the writer emits that two-byte frame, but the dispatcher's `remaining_len == 0` shortcut only knows %s and answers PayloadRequired for it: the codec cannot decode its own (and the peer's) short %s"
+                          % (name, mod, sorted(accepted), mod.upper()), site=disp.loc(disp.blocks[zero_sw[0]]["t"].get("sp")))
+    return n
